@@ -106,14 +106,28 @@ class MandyKb(ApiImmut):
         A = product_tensor(factors).reshape(N, m)
         G = A.T @ A
         cg = float(np.linalg.cond(G))
-        s = np.linalg.svd(A, compute_uv=False)
-        exact_def = s[-1] <= 1e-13 * s[0]
-        kept = s[s > 1e-10 * s[0]]
-        cond_eff = float((s[0] / kept[-1]) ** 2)  # condition of the Gram matrix restricted to its numerical range
-        if not ((cg < 1e10 or (exact_def and cut_decidable([s], 1e-10))) and cond_eff < 1e10):
+        # The library solves G z = y with `solve` if cond(G) < 1/eps and otherwise with lstsq/gelss, whose default cut-off is
+        # machine epsilon.  Both decisions are taken on *its own* Gram matrix, whose exactly-zero singular values are computed as
+        # eps * s_0 * O(1): whether such a value is kept is rounding luck (observed: 1 in ~3000 singular cases keeps one and
+        # returns coefficients of size 1e15).  The clause is decided only where every singular-value ratio of the library's Gram
+        # matrix is either clearly kept (> 1e-10) or clearly dropped (< eps/2); everything else is counted as skipped.
+        try:
+            with probe.oracle():
+                import scikit_tt.data_driven.transform as _tdt
+                sl = np.linalg.svd(np.asarray(_tdt.gram(x, x, bl), dtype=float), compute_uv=False)
+            ratios = sl / sl[0] if sl[0] > 0 else np.zeros_like(sl)
+        except Exception:
             c.skip('mandy_kb_gram_condition_in_undecidable_band')
             return
-        fitted_want = y @ np.linalg.pinv(A, rcond=1e-10) @ A
+        eps = np.finfo(float).eps
+        if not np.all(np.isfinite(ratios)) or np.any((ratios >= 0.5 * eps) & (ratios <= 1e-10)):
+            c.skip('mandy_kb_gram_condition_in_undecidable_band')
+            return
+        exact_def = bool(np.any(ratios < 0.5 * eps))
+        kept = sl[ratios > 1e-10]
+        cond_eff = float(sl[0] / kept[-1])  # condition of the Gram matrix restricted to its numerical range
+        # singular values of A are the square roots: Gram ratios > 1e-10 / < eps/2  <=>  ratios of A > 1e-5 / < 1.1e-8
+        fitted_want = y @ np.linalg.pinv(A, rcond=1e-6) @ A
         fitted_got = np.asarray(res) @ G
         sc = max(float(np.max(np.abs(y))), 1e-300)
         err = float(np.max(np.abs(fitted_got - fitted_want))) / sc if fitted_got.shape == fitted_want.shape else np.inf
